@@ -117,7 +117,20 @@ def copy_cond(rep, prog, rule):
     if len(okb) != 1:
         rep.unk(rule, "ok-block", f.loc, "%d Ok returns" % len(okb))
         return
-    facts = sym.facts_at(okb[0])
+    facts = list(sym.facts_at(okb[0]))
+    from ..engines.validators import implied_when
+    opaque = []
+    for cond, val in list(facts):
+        c0 = cond
+        while c0[0] == "cast":
+            c0 = c0[2]
+        if c0[0] in ("call", "callat") and isinstance(val, (bool, int)) and c0[0] != "bin":
+            imp = implied_when(prog, c0, bool(val))
+            if imp is None:
+                if "crop_box" in fmt(c0):
+                    opaque.append(fmt(c0)[:80])
+            else:
+                facts.extend(imp)
     integral = set()
     dims = set()
     for cond, val in facts:
@@ -141,6 +154,9 @@ def copy_cond(rep, prog, rule):
                 "fract", "trunc", "floor", "ceil", "round", "Rem")) for c, v in facts):
             rep.unk(rule, "integral|%s" % fld, f.loc, "crop_box.%s is tested for integrality in "
                     "an unrecognised form" % fld)
+        elif opaque:
+            rep.unk(rule, "integral|%s" % fld, f.loc, "the Ok path is guarded by %s, which is not "
+                    "followed" % opaque[0])
         else:
             rep.bad(rule, "integral|%s" % fld, f.loc,
                     "copy_image can return Ok without `crop_box.%s == crop_box.%s.round()` having "
@@ -203,6 +219,23 @@ def need_pass(rep, prog, rule):
             common = set.intersection(*per_def)
             for s_ in per_def:
                 conds.extend(c for (c, v) in sorted(s_ - common, key=lambda cv: fmt(cv[0])))
+        from ..engines.validators import predicate_parts
+        extra = []
+
+        def walk(x, depth=0):
+            if not isinstance(x, tuple) or not x or depth > 8:
+                return
+            if x[0] in ("call", "callat"):
+                extra.extend(predicate_parts(prog, x))
+            if x[0] == "local":
+                for (bb2, j2, rv2, w2) in sym.defs.get(x[1], []):
+                    walk(sym.rvalue(rv2, bb2, (bb2, j2)), depth + 1)
+            for y in x:
+                if isinstance(y, tuple):
+                    walk(y, depth + 1)
+        for c in list(conds):
+            walk(c)
+        conds.extend(extra)
         txt = " ".join(fmt(c) for c in conds)
         has_bad = [w for w in bad if ("." + w) in txt or (w + "(") in txt]
         has_good = [w for w in good if ("." + w) in txt or (w + "(") in txt]
